@@ -26,7 +26,7 @@ MUTATIONS = ('text', 'drop_attr', 'add_attr', 'change_attr', 'drop_child', 'dup_
 def cases():
     out = []
     idx = os.path.join(CASES_DIR, 'testfiles')
-    if not os.path.exists(idx): return out
+    if not os.path.exists(idx): return feature_cases()
     buf = []
     for line in open(idx):
         line = line.split('#')[0].strip()
@@ -43,7 +43,20 @@ def cases():
             elif t.startswith('--defuse'): defuse = t.split('=', 1)[1] if '=' in t else toks[i + 1]; i += 0 if '=' in t else 1
             i += 1
         if os.path.isfile(os.path.join(CASES_DIR, toks[0])): out.append(dict(file=toks[0], ver=ver, locations=loc or None, defuse=defuse))
-    return out
+    return out + feature_cases()
+
+
+def feature_cases():
+    from . import features
+    return [dict(file=f'feature:{name}#{i}', ver=ver, locations=None, defuse='remote') for name, ver, i, d in features.items()]
+
+
+def case_data(case):
+    if case['file'].startswith('feature:'):
+        from . import features
+        name, i = case['file'][8:].split('#')
+        return features.FEATURES[name][2][int(i)].encode()
+    return open(os.path.join(CASES_DIR, case['file']), 'rb').read()
 
 
 _S = {}
@@ -51,8 +64,14 @@ _S = {}
 
 def build(case, fresh=False):
     import xmlschema
-    key = (case['file'], case['ver'])
+    key = (case['file'].split('#')[0], case['ver'])
     if not fresh and key in _S: return _S[key]
+    if case['file'].startswith('feature:'):
+        from . import features
+        try: s = features.build(case['file'][8:].split('#')[0], case['ver'])
+        except Exception: s = None
+        if not fresh: _S[key] = s
+        return s
     cls = xmlschema.XMLSchema11 if case['ver'] == '1.1' else xmlschema.XMLSchema10
     f = os.path.join(CASES_DIR, case['file'])
     try:
@@ -212,6 +231,10 @@ def contracts(s, fresh_builder, data, workdir, which):
         errs = list(s.iter_errors(res)); E = sig(errs)
     except lib as e: return bad
     except Exception as e: return [('total', f'iter_errors raised {type(e).__name__}: {str(e)[:120]}')] if 'total' in which else bad
+    if 'total' in which:
+        for e in errs:
+            try: str(e); repr(e); e.msg; e.path; e.get_elem_as_string() if e.elem is not None else None
+            except Exception as x: bad.append(('total', f'an error object cannot be rendered: {type(x).__name__}: {str(x)[:100]}')); break
     if 'locate' in which:
         for e in errs:
             if e.path is None or e.elem is None: continue
@@ -256,8 +279,21 @@ def contracts(s, fresh_builder, data, workdir, which):
                 EL = [(type(e).__name__, loc(e.path)) for e in s.iter_errors(lz)]
                 if EL == EE: continue
                 # the root element of a lazy resource is complete - and validated - only after its last chunk: its own errors come last
-                split = lambda L: ([x for x in L if x[1] != rp], [x for x in L if x[1] == rp])
-                if split(EL) == split(EE) and EL == split(EL)[0] + split(EL)[1]: bad.append(('lazy', 'KNOWN:' + ROOT_LAST)); break
+                # (and with them what the root's model group reports about its children: a blocked substitution, a child that may not be there)
+                if sorted(EL) == sorted(EE): bad.append(('lazy', 'KNOWN:' + ROOT_LAST)); break
+                # once the root's content model has rejected a child, what is still reported inside the rejected children and after them depends on how the run recovers: the loaded run
+                # goes on with the model visitor, the lazy run looks every chunk up by its path
+                # a chunk that has no element declaration at its path - a wildcard admits it - is not validated at all through a lazy resource
+                wpaths = wildcard_chunk_paths(s, res, loc)
+                under = lambda pth: any(pth == w or pth.startswith(w + '/') for w in wpaths)
+                rest = list(EE)
+                try:
+                    for x in EL: rest.remove(x)
+                    if wpaths and rest and all(under(x[1]) for x in rest) and [x for x in EE if not under(x[1])] == [x for x in EL if not under(x[1])]:
+                        bad.append(('lazy', 'KNOWN:C06-lazy-skips-chunks-admitted-only-by-a-wildcard')); break
+                except ValueError: pass
+                at_root = lambda L: sorted(x for x in L if x[1] == rp)
+                if any(x[0] == 'XMLSchemaChildrenValidationError' and x[1] == rp for x in EE) and at_root(EL) == at_root(EE): bad.append(('lazy', 'KNOWN:C06-lazy-recovery-after-a-root-model-error')); break
                 bad.append(('lazy', f'lazy (thin={thin}) errors differ: {EL[:3]} vs {EE[:3]}')); break
         except lib as e: bad.append(('lazy', f'lazy validation raised {type(e).__name__}: {str(e)[:100]}'))
         except Exception as e: bad.append(('total', f'lazy: {type(e).__name__}: {str(e)[:120]}'))
@@ -284,6 +320,7 @@ def roundtrip_contract(s, res, which):
             kw = dict(process_skipped=True, use_defaults=False); kw.update(dict(converter=conv) if conv else {})
             # (a) the default namespace processing of an XML source: declarations are reported in the data and restored by the encoder
             try:
+                if name == 'default' and s.decode(res, validation='lax', process_skipped=True, use_defaults=False)[1]: return bad      # not valid once the skipped content is looked at: no round trip claimed
                 d = s.decode(res, **kw)
                 e = s.encode(d, path=root.tag, **kw)
             except XMLSchemaException as x: bad.append(('roundtrip', f'{name}: decode / strict encode of a valid document raised {type(x).__name__}: {str(x)[:160]}')); continue
@@ -303,12 +340,35 @@ def roundtrip_contract(s, res, which):
             except Exception as x: bad.append(('roundtrip', f'{name}: {type(x).__name__}: {str(x)[:120]}'))
     if 'keys' in which:
         try:
-            d = s.decode(res); kb = []
+            d = s.decode(res, process_skipped=True); kb = []
             if isinstance(d, dict): keys_check(d, root, {}, kb)
             for b in kb[:2]: bad.append(('keys', f'at {b[0]}: keys resolve to {b[1][:4]} but the children are {b[2][:4]}'))
         except XMLSchemaException: pass
         except Exception as x: bad.append(('keys', f'{type(x).__name__}: {str(x)[:120]}'))
     return bad
+
+
+def wildcard_chunk_paths(s, res, loc):
+    """local-name paths (as in the lazy comparison) of the children of the root that the root's content model admits through a wildcard only"""
+    from xmlschema import XMLSchemaException
+    governing = {}
+
+    def hook(e, x): governing.setdefault(e, x); return False
+    try: errs = list(s.iter_errors(res, validation_hook=hook))
+    except XMLSchemaException: return set()
+    root = res.root; rg = governing.get(root)
+    if rg is None or not rg.type.is_complex() or not hasattr(rg.type.content, 'iter_elements'): return set()
+    declared = [x for x in rg.type.content.iter_elements() if hasattr(x, 'iter_substitutes')]
+    out = set()
+    for c in root:
+        if not isinstance(c.tag, str): continue
+        g = governing.get(c)
+        ok = g is not None and any(x is g or getattr(x, 'ref', None) is g or x.name == g.name or g.name in [m.name for m in x.iter_substitutes()] for x in declared)
+        if not ok:
+            same = [k for k in root if k.tag == c.tag]
+            step = c.tag.split('}')[-1] + (f'[{same.index(c) + 1}]' if len(same) > 1 else '')
+            out.add('/' + root.tag.split('}')[-1] + '/' + step)
+    return out
 
 
 XSI_TYPE = '{http://www.w3.org/2001/XMLSchema-instance}type'
@@ -343,6 +403,7 @@ def paths_contract(s, res, full_errs):
         full = list(s.iter_errors(res, validation_hook=hook))
     except XMLSchemaException: return bad
     elems = [e for e in root.iter() if isinstance(e.tag, str)]
+    wild = set()
     opaque = set()                                # subtrees whose governing type is not the declared one (xsi:type, alternatives) or reached through a wildcard
     for e in elems:
         p = parent.get(e); gov = governing.get(e)
@@ -352,11 +413,12 @@ def paths_contract(s, res, full_errs):
             pg = governing.get(p)
             declared = pg is not None and pg.type.is_complex() and any(x is gov or getattr(x, 'ref', None) is gov or x.name == gov.name or gov.name in [m.name for m in x.iter_substitutes()]
                                                                         for x in pg.type.content.iter_elements() if hasattr(x, 'iter_substitutes'))
-            if not declared: opaque.add(e); continue
+            if not declared: opaque.add(e); wild.add(e); continue
         if p is not None and (XSI_TYPE in p.attrib or p in opaque): continue
         try: found = s.find(path_of(e, False), nsm)
         except Exception as x: bad.append(('paths', f'find({path_of(e, False)}) raised {type(x).__name__}')); continue
         if found is None: bad.append(('paths', f'find({path_of(e, False)}) is None, the node was governed by {gov!r}')); continue
+        if type(found).__name__.endswith('AnyElement') and found.is_matching(e.tag): bad.append(('paths', 'KNOWN:C20-find-returns-the-wildcard-that-admits-the-name')); continue
         if found.type is not gov.type and not (found.name != gov.name and gov.name in [m.name for m in found.iter_substitutes()]):
             bad.append(('paths', f'find({path_of(e, False)}) = {found!r} of type {found.type!r}, the node was governed by {gov!r} of type {gov.type!r}'))
     ident = lambda r: any(w in (r or '') for w in IDENTITY_WORDS)
@@ -369,13 +431,20 @@ def paths_contract(s, res, full_errs):
         while parent.get(x) is not None: x = parent[x]; depth += 1
         if depth > 2: continue
         p = path_of(e, True); sub = set(e.iter())
+        # a part below an element whose content model was rejected: what is reported inside depends on the recovery of the whole-document run (not judged)
+        anc = set(); x = parent.get(e)
+        while x is not None: anc.add(x); x = parent.get(x)
+        if any(type(er).__name__ == 'XMLSchemaChildrenValidationError' and er.elem in anc for er in full): continue
         try: perrs = sorted(norm(x) for x in s.iter_errors(res, path=p, namespaces=nsm) if not ident(x.reason))
         except XMLSchemaException as x: bad.append(('paths', f'iter_errors(path={p}) raised {type(x).__name__}: {str(x)[:80]}')); continue
         except Exception as x: bad.append(('paths', f'iter_errors(path={p}) raised {type(x).__name__}')); continue
         want = sorted(norm(x) for x in full if x.elem in sub and not ident(x.reason))
         if perrs != want:
             strip = lambda L: [r for r in L if 'unmapped prefix' not in r[1] and 'QName' not in r[1]]
+            head = lambda L: [r for r in L if not (r[1].startswith('substitution of') or 'is blocked by head element' in r[1])]
             if depth >= 2 and strip(perrs) == strip(want): bad.append(('paths', 'KNOWN:C20-partial-validation-ignores-intermediate-xmlns'))
+            elif head(perrs) == head(want) and perrs == head(perrs): bad.append(('paths', 'KNOWN:C20-partial-validation-loses-the-head-of-a-substitution'))
+            elif e in wild and not perrs: bad.append(('paths', 'KNOWN:C20-partial-validation-skips-elements-admitted-only-by-a-wildcard'))
             else: bad.append(('paths', f'errors of the part {p}: {perrs[:2]} but the whole document has {want[:2]} there'))
     return bad
 
@@ -384,7 +453,7 @@ def eval_case(args):
     case, n, seed, workdir, fresh_every, which = args
     s = build(case)
     if s is None or s.all_errors: return dict(case=case, skipped='schema not built' if s is None else 'schema with errors', cases=0, bad=[])
-    data = open(os.path.join(CASES_DIR, case['file']), 'rb').read()
+    data = case_data(case)
     rng = random.Random(f"{seed}:{case['file']}:{case['ver']}")
     bad = []; cnt = 0
     types = sorted((t.name[1:].split('}') if t.name[0] == '{' else ['', t.name]) for t in s.maps.types.values() if t.name and not t.name.startswith('{http://www.w3.org/2001/XMLSchema}'))[:40]
@@ -426,7 +495,7 @@ def family(prop, tier, seed, open_findings):
     total = sum(r['cases'] for r in res)
     skipped = [f"{r['case']['file']} ({r['skipped']})" for r in res if r.get('skipped')]
     name = f'{prop}.corpus_{which}'
-    return result(name, f'{len(cs) - len(skipped)} instance documents of tests/test_cases x (original + {n} seeded single-node mutations); {text}', total, fails[:40], known=known,
+    return result(name, f'{len(cs) - len(skipped)} documents (the instance documents of tests/test_cases and the documents of bounded/features.py) x (original + {n} seeded single-node mutations); {text}', total, fails[:40], known=known,
                   samples=[dict(file=cs[0]['file'], mutation='original')] if cs else [], distinct=total, notes=('skipped: ' + '; '.join(skipped)) if skipped else None)
 
 
